@@ -34,7 +34,12 @@ func init() {
 				{Name: "signer-binding", Custom: signerBinding, Shards: 1},
 				{Name: "rebond-life-cycle", Spec: &vote.Spec{Prop: "C02", Chain: "eth", Stakes: []int64{10000, 10000, 10000, 10000}, Variants: []string{"A"}, MaxNonce: 3, Rebond: true}, Depth: 8, ShardDepth: 2},
 			}
+			// the chain is restarted from its exported genesis at any point of a history of votes and membership changes
+			rs := mk([]int64{10000, 10000, 10000}, true, true, false, 3)
+			rs.Restart = true
+			jobs = append(jobs, registry.Job{Name: "restart-from-exported-genesis", Spec: rs, Depth: 5, ShardDepth: 2, NoConform: true})
 			if tier == "thorough" {
+				jobs[5].Depth = 7
 				jobs[0].Depth = 8
 				jobs[1].Depth = 7
 				jobs[2].Depth = 7
